@@ -117,6 +117,94 @@ def delete_removes_found(prog, f, tree, removals):
     return None
 
 
+def counter_discipline(prog, tree, fld):
+    """None if field `fld` of the tree counts its entries: 0 from every constructor, := 0 in clear, + 1 exactly once on every path
+    of every function that takes a slot from the pool for an entry, - 1 exactly once on every path of the removal, written
+    nowhere else.  Otherwise the reason."""
+    key = ('counterdisc', tree, fld)
+    if key in prog._summ_cache:
+        return prog._summ_cache[key]
+    from rules.pool import pool_roles, tree_pool, calls_to, release_counts
+    from rules.stale import removal_fns
+    res = None
+    pool, _ = tree_pool(prog, tree)
+    r = pool_roles(prog).get(pool)
+    removals = removal_fns(prog)
+    fns = [f for f in prog.fns.values() if f.self_adt == tree and not f.is_closure and f.info.get('mir')]
+    if not r:
+        res = 'no pool recognised'
+    def steps(f):
+        out = []
+        for st in f.body.stores:
+            if strip(st.root).kind == 'param' and st.fields() == (fld,):
+                v = strip(st.value)
+                if v.kind == 'load' and v.fields() in (('0',), (0,)):
+                    v = strip(v.args[0])
+                kind = None
+                if v.kind == 'const' and v.args[0] == 0:
+                    kind = 'zero'
+                elif v.kind == 'bin' and v.args[0].replace('WithOverflow', '').replace('Unchecked', '') in ('Add', 'Sub'):
+                    a, c = strip(v.args[1]), strip(v.args[2])
+                    if a.kind == 'load' and prog.self_field(a) == (fld,) and c.kind == 'const' and c.args[0] == 1:
+                        kind = 'inc' if v.args[0].startswith('Add') else 'dec'
+                elif v.kind == 'call' and v.callee_name() in ('saturating_sub', 'wrapping_sub') and len(v.args) == 2 and strip(v.args[1]).is_const(1) and strip(v.args[0]).kind == 'load' and prog.self_field(strip(v.args[0])) == (fld,):
+                    kind = 'dec'
+                out.append((st, kind))
+        return out
+    for f in fns:
+        if res:
+            break
+        ss = steps(f)
+        takes = bool(calls_to(prog, f, r['alloc'])) and not (f.body.locals[0]['ty'].split('<')[0] == tree)
+        removes = f.path in removals and bool(calls_to(prog, f, r['release']))
+        is_clear = f.trait_method() == 'clear'
+        is_ctor = f.body.locals[0]['ty'].split('<')[0] == tree
+        if any(k is None for _, k in ss):
+            res = '%s writes it with something other than 0 / +1 / -1' % f.name
+            break
+        want = 'inc' if takes else ('dec' if removes else None)
+        if is_clear:
+            if not any(k == 'zero' for _, k in ss) or any(k != 'zero' for _, k in ss):
+                res = 'clear does not simply set it to 0'
+            continue
+        if is_ctor:
+            if ss:
+                res = 'the constructor %s writes it through a store' % f.name
+            continue
+        if want is None:
+            if ss:
+                res = '%s changes it although it neither takes a slot for an entry nor is the removal' % f.name
+            continue
+        per_block = {}
+        for st, k in ss:
+            if k != want:
+                res = '%s %s it' % (f.name, {'inc': 'increments', 'dec': 'decrements', 'zero': 'zeroes'}[k])
+                break
+            per_block[st.point[0]] = per_block.get(st.point[0], 0) + 1
+        if res:
+            break
+        counts = release_counts(f.body, per_block)
+        for ret in f.body.cfg.returns:
+            cs = counts.get(ret, {0})
+            if cs != {1}:
+                res = '%s %s it %s times depending on the path (an entry %s exactly once there)' % (f.name, 'increments' if want == 'inc' else 'decrements', sorted(cs), 'is added' if want == 'inc' else 'is removed')
+                break
+    if not res:
+        # constructors: the aggregate gives it 0
+        for f in fns:
+            if f.body.locals[0]['ty'].split('<')[0] != tree:
+                continue
+            for v in f.body._vals:
+                if v.kind == 'agg' and v.extra.get('akind') == 'adt' and v.extra.get('path') == tree and v.extra.get('variant'):
+                    names = v.extra['variant']['fields']
+                    if fld in names and len(names) == len(v.args):
+                        init = strip(v.args[names.index(fld)])
+                        if not (init.kind == 'const' and init.args[0] == 0):
+                            res = 'the constructor %s starts it at %s' % (f.name, show(init, 2))
+    prog._summ_cache[key] = res
+    return res
+
+
 def overwritten_before(prog, f, slot, reads, pf, own_store):
     """is the payload of node(slot) written (directly or through a helper) at a site from which one of `reads` is reachable?"""
     from summaries import node_writes
@@ -241,7 +329,20 @@ def run(ctx):
                         for p, q in ((x, y), (y, x)):
                             if p.kind == 'load' and prog.self_field(p) == ('root',) and prog.is_empty_ref(q):
                                 ok = True
-                ctx.add(RULE, f, 'emptiness', 'ok' if ok else 'violation', 'is_empty is root == EMPTY_REF' if ok else 'is_empty is not root == EMPTY_REF', props, f.line)
+                why_c = None
+                if not ok:
+                    # the other sound form: a maintained entry counter compared with 0
+                    for rv in b.ret_val.values():
+                        rv = strip(rv)
+                        if rv.kind == 'bin' and rv.args[0] == 'Eq':
+                            x, y = strip(rv.args[1]), strip(rv.args[2])
+                            for p, q in ((x, y), (y, x)):
+                                if p.kind == 'load' and prog.self_field(p) and len(prog.self_field(p)) == 1 and q.kind == 'const' and q.args[0] == 0:
+                                    why_c = counter_discipline(prog, tree, prog.self_field(p)[0])
+                                    ok = why_c is None
+                ctx.add(RULE, f, 'emptiness', 'ok' if ok else 'violation',
+                        ('is_empty is root == EMPTY_REF, or an entry counter == 0 that is set to 0 by every constructor and by clear, stepped up once wherever a slot is taken for an entry and down once in the removal' if ok
+                         else ('is_empty compares a counter with 0, but the counter does not count the entries: %s' % why_c if why_c else 'is_empty is not root == EMPTY_REF')), props, f.line)
         writers = {}
         for f in fns:
             for st in f.body.stores:
